@@ -137,6 +137,13 @@ func runMsizeCase(c msizeCase, st *msizeStats) *fail {
 			if st != nil {
 				st.nearLimit++
 			}
+		case "version-refused":
+			// a Tversion the server refuses (not a 9P2000.L version): answered (unknown, 0);
+			// the limit of the last accepted negotiation stays in force
+			rv, err := s.Version(op.Count, []string{"9P2000.u", "9P2000", "unknown", "9P2000.L.Google.x"}[int(op.Offset)%4])
+			if err != nil || rv.Type != refcodec.Rversion || rv.S("version") != "unknown" || rv.U("msize") != 0 {
+				return failf("tversion-refusal", "Tversion(msize=%d) with a version that is not 9P2000.L: answered %v (%v), want Rversion(unknown, 0)", op.Count, rv, err)
+			}
 		case "xread":
 			// a read on an attribute fid: offset + count inside the 70000-byte value
 			if uint64(op.Offset)+uint64(op.Count) > 70000 || op.Count == 0 {
@@ -243,6 +250,11 @@ func genMsizeCase(rt *rapid.T) msizeCase {
 	}
 	nops := rapid.IntRange(1, 8).Draw(rt, "nops")
 	for i := 0; i < nops; i++ {
+		if rapid.IntRange(0, 7).Draw(rt, "refused") == 0 {
+			// a refused Tversion proposing another msize: nothing changes
+			c.Ops = append(c.Ops, msizeOp{Kind: "version-refused", Offset: uint64(rapid.IntRange(0, 3).Draw(rt, "rv")),
+				Count: uint32(rapid.SampledFrom([]int{64, 4096, 1 << 20, 4 << 20, int(eff) * 2, int(eff) / 2}).Draw(rt, "rmsize"))})
+		}
 		if i > 0 && rapid.IntRange(0, 5).Draw(rt, "reneg") == 0 {
 			// a second Tversion with a smaller (or larger) msize; later counts refer to it
 			nm := uint32(rapid.SampledFrom([]int{64, 100, 512, 4096, 8192, 65536, int(eff) / 2, int(eff) * 2}).Draw(rt, "newmsize"))
